@@ -622,3 +622,7 @@ def main(ctx):
     # ------------------------------------------------ one SFile object used for several files (mc/sfreuse.py)
     from mc.sfreuse import reused_object_world
     reused_object_world(ctx, "one-object-several-files", depth=ctx.pick(5, 7))
+
+    # ------------------------------------------------ one Recfile object used for several files (mc/sfreuse.py)
+    from mc.sfreuse import reused_recfile_world
+    reused_recfile_world(ctx, "one-recfile-object-several-files", depth=ctx.pick(6, 8))
